@@ -28,8 +28,8 @@ PROPS['C04'] = {
         ('(*tree.Tree).ComputeEdgeHashes', {'match': [r'^callsite']}),
         ('(*tree.Tree).ShuffleTips', {'match': [r'^callsite', r'^post']}),
         ('(*tree.Tree).fillRightBitSet', {'match': [r'^callsite', r'^post', r'^inv']}), ('(*tree.Tree).UpdateBitSet', {'match': [r'^callsite']}),
-        ('(*tree.Tree).tipEdgesRecur', {'match': [r'^post', r'^inv']}), ('(*tree.Tree).TipEdges', {'match': [r'^post', r'^inv']}),
-        ('(*tree.Tree).edgesRecur', {'match': [r'^post', r'^inv']}), ('(*tree.Tree).internalEdgesRecur', {'match': [r'^post', r'^inv']}), ('(*tree.Tree).InternalEdges', {'match': [r'^post', r'^inv']}),
+        '(*tree.Tree).tipEdgesRecur', '(*tree.Tree).TipEdges',
+        '(*tree.Tree).edgesRecur', '(*tree.Tree).Edges', '(*tree.Tree).tipsRecur', ('(*tree.Tree).Tips', {'match': [r'^post\.(elements_non_nil|only_tips|fresh_storage)', r'^frame', r'^pre', r'^nil', r'^bounds']}), ('(*tree.Tree).internalEdgesRecur', {'match': [r'^post', r'^inv']}), ('(*tree.Tree).InternalEdges', {'match': [r'^post', r'^inv']}),
     ],
     'lemma_files': [],
     'trusted_base': TB_COMMON,
@@ -308,13 +308,14 @@ PROPS['C03'] = {
     'packages': ['./tree', './hashmap'],
     'functions': ['(*tree.Tree).NewNode', '(*tree.Tree).ConnectNodes', '(*tree.Tree).GraftTipOnEdge', '(*tree.nni).Apply', '(*tree.nni).Undo',
                   '(*tree.Node).delNeighbor', '(*tree.Tree).delNode', '(*tree.Node).NodeIndex', '(*tree.Node).EdgeIndex',
-                  ('(*tree.Tree).removeTip', {'match': [r'^return\.when_the_suppressed', r'^inv']}), ('(*tree.Tree).edgesRecur', {'match': [r'^post', r'^inv']}),
+                  ('(*tree.Tree).removeTip', {'match': [r'^return\.when_the_suppressed', r'^inv']}), '(*tree.Tree).edgesRecur', '(*tree.Tree).Edges', '(*tree.Tree).nodesRecur', '(*tree.Tree).Nodes', '(*tree.Tree).tipsRecur',
+                  ('(*tree.Tree).Tips', {'match': [r'^post\.(elements_non_nil|only_tips|fresh_storage)', r'^frame', r'^pre', r'^nil', r'^bounds']}),
                   ('(*tree.Tree).internalEdgesRecur', {'match': [r'^post', r'^inv']}),
                   ('(*tree.Tree).InternalEdges', {'match': [r'^post', r'^inv']}),
                   '(*tree.Tree).RemoveEdges', '(*tree.Tree).unconnectNode',
                   ('(*tree.Tree).removeSingleNodesRecur', {'match': [r'^callsite', r'^inv', r'^store']}),
                   '(*tree.Node).ParentEdge', '(*tree.Tree).GraftTreeOnTip',
-                  ('(*tree.Tree).tipEdgesRecur', {'match': [r'^post', r'^inv']}), ('(*tree.Tree).TipEdges', {'match': [r'^post', r'^inv']})],
+                  '(*tree.Tree).tipEdgesRecur', '(*tree.Tree).TipEdges'],
     'trusted_base': TB_COMMON,
     'assumptions': A_COMMON,
     'not_decided': ['acyclicity / connectivity after each surgery (A-GRAPH: lemmas L1-L9)', 'counting clauses (branches = nodes - 1; all = internal + external)', 'global symmetric adjacency as a quantified invariant'],
